@@ -639,6 +639,12 @@ WITNESSES += [
     {"name": "switch-hoisted-stale-label", "file": _F, "rule": "C07.b", "old": "        for i_ in range(labels.shape[0]):\n            for j_ in range(i_ + 1, labels.shape[0]):\n                i = perm[i_]\n                j = perm[j_]\n                c1 = labels[i]\n", "new": "        for i_ in range(labels.shape[0]):\n            i = perm[i_]\n            c1 = labels[i]\n            for j_ in range(i_ + 1, labels.shape[0]):\n                j = perm[j_]\n"},
     {"name": "predict-balanced-only-large-batches", "file": "mlinsights/mlmodel/kmeans_constraint.py", "rule": "C07.d", "old": "            if self.balanced_predictions:\n                labels, _, __ = constraint_predictions(", "new": "            if self.balanced_predictions and X.shape[0] > self.n_clusters:\n                labels, _, __ = constraint_predictions("},
 ]
+# witnesses of the rules added after the ninth round of independent changes
+WITNESSES += [
+    {"name": "partner-from-own-queue", "file": _F, "rule": "C07.b", "old": "cp = transfer.get((dest, cur), [])", "new": "cp = transfer.get((cur, dest), [])"},
+]
+
+
 TWINS = [
     {"name": "leftover-modulo", "file": _F, "old": "    limit = X.shape[0] // centers.shape[0]\n    leftover = X.shape[0] - limit * centers.shape[0]\n    leftclose = numpy.empty((centers.shape[0],), dtype=numpy.int32)\n    distances_close", "new": "    limit = X.shape[0] // centers.shape[0]\n    leftover = X.shape[0] % centers.shape[0]\n    leftclose = numpy.empty((centers.shape[0],), dtype=numpy.int32)\n    distances_close"},
     {"name": "quota-block-reordered", "file": _F, "old": "                    counters[c] += 1\n                    labels[ind] = c\n                    distances[ind, c] = maxi\n                    break\n                if nover", "new": "                    labels[ind] = c\n                    counters[c] += 1\n                    distances[ind, c] = maxi\n                    break\n                if nover"},
